@@ -74,7 +74,7 @@ func pickConstraints(rng *rand.Rand, in *minfo) ([]int, []int) {
 
 func secARAP(r *vlib.Run) {
 	const api = "model3d.ARAP.Deform"
-	r.Section("arap", r.N(420, 5600), vlib.SectionOpts{Watchdog: 0}, func(c *vlib.Case) {
+	r.Section("arap", r.N(300, 4500), vlib.SectionOpts{Watchdog: 0}, func(c *vlib.Case) {
 		rng := c.Rng
 		// cotangent weights are documented for meshes with smaller-than-right
 		// angles only: near-equilateral icospheres. Other meshes use the
